@@ -6,6 +6,27 @@ from ..ref import cell as RC
 sys.setrecursionlimit(20000)
 
 
+class user_recursion_limit:
+    """run library calls under the interpreter's DEFAULT recursion limit (1000 frames above the caller), as a user's
+    program would: the harness raises the limit for its own recursive reference code, which must not hide a library
+    routine that recurses once per level of a (legally up to 1023 levels deep) cell tree"""
+    DEFAULT = 1000
+
+    def __enter__(self):
+        self.old = sys.getrecursionlimit()
+        depth = 0
+        f = sys._getframe()
+        while f is not None:
+            depth += 1
+            f = f.f_back
+        sys.setrecursionlimit(depth + self.DEFAULT)
+        return self
+
+    def __exit__(self, *a):
+        sys.setrecursionlimit(self.old)
+        return False
+
+
 def filler(seed, tag, n: int) -> bytes:
     """n deterministic opaque bytes for (seed, tag): the only thing VERIF_SEED influences"""
     out = b''
@@ -77,7 +98,7 @@ def lib_canon(cell, memo=None):
         if pend:
             stack.extend(pend)
             continue
-        memo[id(c)] = (c.bits.to01(), c.type_ != -1, tuple(memo[id(r)] for r in c.refs))
+        memo[id(c)] = RC.canon_node(c.bits.to01(), c.type_ != -1, [memo[id(r)] for r in c.refs])
         stack.pop()
     return memo[id(cell)]
 
